@@ -75,6 +75,7 @@ type bStep struct {
 	Clean bool     `json:"clean,omitempty"`
 	Rerun bool     `json:"rerun,omitempty"` // run again on the same Project without reloading
 	Reuse bool     `json:"reuse,omitempty"` // do not reload: use the Project of the previous build step (REPL session)
+	Via   string   `json:"via,omitempty"`   // "repl": the build is started with the run() builtin and observed through its callback
 	// op "watch": Project.Watch runs on Root while the script edits the tree
 	Script []bStep `json:"script,omitempty"`
 }
@@ -113,6 +114,8 @@ type bWorld struct {
 	crash   *bCrash
 	hits    map[string]int
 	proj    *Project // the project of the last build step (for session steps)
+	evalLogged  sync.Map    // names whose evaluating event has been logged in this build
+	viaCallback atomic.Bool // a build started with run(callback=...) is under way
 	inflight atomic.Int64 // evaluating events without their succeeded/failed yet
 	evalSeen sync.Map
 	fixedArgs []string // child builds: the command line decided by the parent
@@ -498,6 +501,16 @@ func (w *bWorld) vexec(thread *starlark.Thread, fn *starlark.Builtin, args starl
 		parts = append(parts, "dep:"+d+"="+hex.EncodeToString(sum[:6]))
 	}
 	content := strings.Join(parts, "|")
+	if w.viaCallback.Load() {
+		// the callback of run() is fed by a goroutine of its own: the evaluating event was handed
+		// over before the body began, let it be logged before what the body logs itself
+		for i := 0; i < 4000; i++ {
+			if _, ok := w.evalLogged.Load(name); ok {
+				break
+			}
+			time.Sleep(500 * time.Microsecond)
+		}
+	}
 	// watch scenarios: a held body stops here, after it has read its inputs
 	w.mu.Lock()
 	gate := w.gates[name]
@@ -568,7 +581,8 @@ func (discardWriter) Write(b []byte) (int, error) { return len(b), nil }
 
 type bEvents struct {
 	discardEventsT
-	w *bWorld
+	w  *bWorld
+	cb bool // fed by the callback of run()
 }
 
 func (e *bEvents) TargetUpToDate(l *label.Label) { e.w.logEvent("UpToDate", "l", e.w.nameOfLabel(l)) }
@@ -576,6 +590,7 @@ func (e *bEvents) TargetEvaluating(l *label.Label, reason string, d diff.ValueDi
 	e.w.evalSeen.Store(l.String(), true)
 	e.w.inflight.Add(1)
 	e.w.logEvent("Evaluating", "l", e.w.nameOfLabel(l), "reason", reason)
+	e.w.evalLogged.Store(e.w.nameOfLabel(l), true)
 }
 func (e *bEvents) done(l *label.Label) {
 	if _, ok := e.w.evalSeen.LoadAndDelete(l.String()); ok {
@@ -617,7 +632,90 @@ func (e *bEvents) FileChanged(l *label.Label) {
 	}
 }
 func (e *bEvents) Print(l *label.Label, line string) {
+	if !e.cb && e.w.viaCallback.Load() {
+		// the build is observed through the callback of run(), yet the line arrives at the
+		// receiver the project was loaded with
+		e.w.logEvent("PrintElsewhere", "l", e.w.nameOfLabel(l), "line", line)
+		return
+	}
 	e.w.logEvent("Print", "l", e.w.nameOfLabel(l), "line", line)
+}
+
+// runViaBuiltin builds the way a REPL session does: with the run() builtin, the events arriving
+// as values at a Starlark callback. What the callback receives is logged as the same events
+// the Go interface delivers.
+func (w *bWorld) runViaBuiltin(proj *Project, st *bStep) error {
+	be := &bEvents{w: w, cb: true}
+	w.evalLogged.Range(func(k, _ any) bool { w.evalLogged.Delete(k); return true })
+	w.viaCallback.Store(true)
+	defer w.viaCallback.Store(false)
+	thread, globals := proj.REPLEnv(discardWriter{}, &label.Label{Kind: "target", Package: "//"})
+	str := func(ev starlark.Value, name string) (string, bool) {
+		ha, ok := ev.(starlark.HasAttrs)
+		if !ok {
+			return "", false
+		}
+		v, err := ha.Attr(name)
+		if err != nil || v == nil {
+			return "", false
+		}
+		s, ok := v.(starlark.String)
+		return string(s), ok
+	}
+	cb := starlark.NewBuiltin("on_event", func(_ *starlark.Thread, _ *starlark.Builtin, args starlark.Tuple, _ []starlark.Tuple) (starlark.Value, error) {
+		if len(args) != 1 {
+			return starlark.None, nil
+		}
+		ev := args[0]
+		kind, _ := str(ev, "kind")
+		var l *label.Label
+		if ls, ok := str(ev, "label"); ok {
+			l, _ = label.Parse(ls)
+		}
+		if l == nil && kind != "RunDone" {
+			w.logEvent("CallbackEvent", "kind", kind, "text", ev.String())
+			return starlark.None, nil
+		}
+		switch kind {
+		case "TargetUpToDate":
+			be.TargetUpToDate(l)
+		case "TargetEvaluating":
+			reason, _ := str(ev, "reason")
+			be.TargetEvaluating(l, reason, nil)
+		case "TargetSucceeded":
+			changed := false
+			if ha, ok := ev.(starlark.HasAttrs); ok {
+				if v, err := ha.Attr("changed"); err == nil && v != nil {
+					changed = bool(v.Truth())
+				}
+			}
+			be.TargetSucceeded(l, changed)
+		case "TargetFailed":
+			msg, _ := str(ev, "err")
+			be.TargetFailed(l, fmt.Errorf("%s", msg))
+		case "Print":
+			line, _ := str(ev, "line")
+			be.Print(l, line)
+		case "RunDone":
+			if msg, ok := str(ev, "err"); ok {
+				be.RunDone(fmt.Errorf("%s", msg))
+			} else {
+				be.RunDone(nil)
+			}
+		default:
+			w.logEvent("CallbackEvent", "kind", kind, "text", ev.String())
+		}
+		return starlark.None, nil
+	})
+	kwargs := []starlark.Tuple{{starlark.String("callback"), cb}}
+	if st.Mode == "always" {
+		kwargs = append(kwargs, starlark.Tuple{starlark.String("always"), starlark.True})
+	}
+	if st.Mode == "dry" {
+		kwargs = append(kwargs, starlark.Tuple{starlark.String("dry_run"), starlark.True})
+	}
+	_, err := starlark.Call(thread, globals["run"], starlark.Tuple{starlark.String(w.rootLabel(st.Root).String())}, kwargs)
+	return err
 }
 
 // ---- digests --------------------------------------------------------------------------------
@@ -842,7 +940,12 @@ func (w *bWorld) build(st *bStep) {
 			ropts = &RunOptions{Always: st.Mode == "always", DryRun: st.Mode == "dry"}
 		}
 		baseGoroutines := runtime.NumGoroutine()
-		rerr := proj.Run(w.rootLabel(st.Root), ropts)
+		var rerr error
+		if st.Via == "repl" {
+			rerr = w.runViaBuiltin(proj, st)
+		} else {
+			rerr = proj.Run(w.rootLabel(st.Root), ropts)
+		}
 		if rerr != nil {
 			// after a cyclic-dependency error Run returns while other targets may still be
 			// running, or may not even have started: let them finish (no evaluating target, and
